@@ -28,6 +28,8 @@ def run_case(run, drv, files, pl, single, via_cli, tag):
             run.fail("impl-vs-spec", case, {"raised": repr(exc)})
             return
     meta = impl.decode(raw)
+    if not via_cli:
+        cr.ask_createfull(drv, ("createfull", case, raw), "v1align", files, pl, single, name, raw)
     why = cr.check_align_view(meta, files, pl, single, name)
     if why:
         run.fail("impl-vs-spec", case, {"why": why})
@@ -61,7 +63,7 @@ def run(tier, seed, replay=None):
         for _ in range(120 if tier == "quick" else 1200):
             files, pl, single = cr.make_case(run.rng, tier, single_p=0.2)
             run_case(run, drv, files, pl, single, run.rng.random() < 0.3, "random")
-    for (case, pieces, entries), _, out in drv.run():
+    for (case, pieces, entries), _, out in cr.settle_createfull(run, drv.run()):
         run.model_checked += 1
         parts = out.split(" ")
         if parts[0] == "ERR":
